@@ -47,6 +47,7 @@ pub fn run(cfg: &RunCfg, plan: &ConcPlan) -> Report {
 			budget2: 3000,
 			keep_log: cfg.only.is_some(),
 			try_max: 60,
+			poison_model: plan.gen.allow_panic,
 		};
 		let res = run_concurrent(&prog, &ec);
 		rep.evaluations += 1;
@@ -113,7 +114,7 @@ pub fn run(cfg: &RunCfg, plan: &ConcPlan) -> Report {
 				prop: v.prop.into(),
 				rule: v.rule.into(),
 				detail: v.detail.clone(),
-				signature: format!("{}:{}", v.prop, v.rule),
+				signature: sig_of(v),
 				case: format!("{} || policy={:?} strategy={:?}", program_desc(&prog), policy, ec.strategy),
 				index: i,
 				log: tail(&res.log),
